@@ -329,14 +329,22 @@ func (l *Log) RemoveGTE(i uint64) error {
 
 // Reset clears all entries and resets to given lastIndex
 func (l *Log) Reset(lastIndex uint64) error {
-	// remove all segments
-	for l.first != nil {
-		if err := l.first.closeAndRemove(); err != nil {
+	// remove all segments, the newest first: what a crash in the middle
+	// leaves behind is then a log that ends early, which is recognised as
+	// incomplete, and never one that begins late and looks like a log
+	// continuing from lastIndex
+	for l.last != nil {
+		s := l.last
+		if err := s.closeAndRemove(); err != nil {
 			return err
 		}
 		verifPoint(l.dir, "log.reset.each")
-		l.first = l.first.next
+		l.last = s.prev
+		if l.last != nil {
+			disconnect(l.last, s)
+		}
 	}
+	l.first = nil
 
 	s, err := openSegment(l.dir, lastIndex, l.opt)
 	if err != nil {
